@@ -4,7 +4,7 @@
                        pulse and every t in [0, total) the program plays  at_ pcs c t  (half-open junctions). *)
 From Coq Require Import ZArith QArith List Bool.
 Require Import QV.C01.Model QV.C01.Spec QV.C01.Proofs QV.C01.ProofsDefs QV.C01.Proofs_trafo QV.C01.Proofs_table
-        QV.C01.Proofs_comp QV.C01.Proofs_atoms QV.C01.Proofs_main QV.C01.Proofs_sampling QV.C01.Proofs_leaves.
+        QV.C01.Proofs_comp QV.C01.Proofs_atoms QV.C01.Proofs_main QV.C01.Proofs_sampling QV.C01.Proofs_leaves QV.C01.Proofs_atoms2.
 Import ListNotations.
 Open Scope Q_scope.
 
@@ -110,40 +110,26 @@ Proof. reflexivity. Qed.
 (* ================================================================================================================ *)
 (* round 2 *)
 
-(* ---- proved: every node kind, any nesting of scalar arithmetic, parallel channel outside transformations (the known
-        finding's own guard), atoms ConstantPT (any channels) / TablePT / PointPT without hypothesis; the atomic obligation
-        `atom_sem` remains a hypothesis only for AtomicMultiChannelPT / ArithmeticAtomicPT atoms (`atoms_rest`);
-        tables under `guard_C01_tables` (no triple final time point = the refuted class, no zero-length linear segment) ---- *)
-Theorem C01_denotes_partial : forall p env cm r,
-  atoms_rest p -> guard_C01_par_order false p = true -> guard_C01_tables p (SDict env) (cm_of cm) = true ->
-  create_program p env cm None = Ok r ->
-  exists pcs, denote_top p env cm = Ok pcs /\
-              match r with None => pcs = [] | Some prog => plays prog pcs end.
-Proof.
-  intros p env cm r Ha Hg Ht. apply create_program_denote2; auto. apply atoms_rest_sem. exact Ha.
-Qed.
-Print Assumptions C01_denotes_partial.
+(* ---- proved IN FULL: every node kind and every atom kind (ConstantPT, TablePT, PointPT, AtomicMultiChannelPT,
+        ArithmeticAtomicPT), any nesting; hypotheses = the executable guards of the two known findings only:
+        `guard_C01_par_order` (no parallel-channel node inside a transformation-creating node) and `guard_C01_tables`
+        (no table with >= 3 entries at its final time = the refuted class; no linear entry at its predecessor's time =
+        undefined value), evaluated along the run (scopes of loops / mappings) ---- *)
+Theorem C01_denotes : C01_denotes_statement.
+Proof. intros p env cm r Hg Ht. apply create_program_denote_all; auto. Qed.
+Print Assumptions C01_denotes.
 
-(* no hypothesis about the model left when the atoms are constants, tables and point pulses *)
-Theorem C01_denotes_simple_atoms : forall p env cm r,
-  simple_atoms p = true -> guard_C01_par_order false p = true -> guard_C01_tables p (SDict env) (cm_of cm) = true ->
-  create_program p env cm None = Ok r ->
-  exists pcs, denote_top p env cm = Ok pcs /\
-              match r with None => pcs = [] | Some prog => plays prog pcs end.
-Proof.
-  intros p env cm r Hs. apply C01_denotes_partial. apply simple_atoms_rest. exact Hs.
-Qed.
-Print Assumptions C01_denotes_simple_atoms.
-
-Example C01_simple_atoms_nonvacuous :
+Example C01_denotes_nonvacuous :
   let p := PFor 1%N (EC 0) (EC 2) (EC 1)
              (PArith false SSub (inl (EC 2))
                 (PArith true SMul (inr [(ChS 1, EC (1 # 2))])
                    (PSeq [PRev (PAtom (ATable [(ChS 1, [(EC 0, EV 1%N, Hold); (EC 1, EC 1, Linear); (EC 1, EC 2, Jump)]);
                                                 (ChI 0, [(EC (1 # 2), EC 1, Hold)])]));
                           PAtom (APoint [(EC 0, [EC 1; EC 0], Hold); (EC (3 # 2), [EV 1%N; EC 1], Linear)] [ChS 1; ChI 0]);
-                          PAtom (AConst (EC 1) [(ChS 1, EC 1); (ChI 0, EV 1%N)])]))) in
-  simple_atoms p = true /\ guard_C01_par_order false p = true /\ guard_C01_tables p (SDict []) (cm_of []) = true /\
+                          PAtom (AMulti [AArith (AConst (EC 1) [(ChS 1, EC 1)]) OpSub
+                                                (ATable [(ChS 1, [(EC 0, EC 0, Hold); (EC 1, EC 1, Linear)])]);
+                                         AConst (EC 1) [(ChI 0, EV 1%N)]])]))) in
+  guard_C01_par_order false p = true /\ guard_C01_tables p (SDict []) (cm_of []) = true /\
   exists prog, create_program p [] [] None = Ok (Some prog) /\ Qeq_bool (loop_dur prog) (7 # 1) = true.
 Proof. repeat split; try reflexivity. eexists. split; vm_compute; reflexivity. Qed.
 
@@ -177,11 +163,12 @@ Theorem C01_from_table : forall c tbl w, tbl_guard tbl = true -> from_table c tb
 Proof. exact from_table_core. Qed.
 Print Assumptions C01_from_table.
 
-(* the atomic obligation, discharged *)
-Theorem C01_atoms : forall a, simple_atom a = true -> forall s cm ow,
+(* the atomic obligation, discharged for every atom kind: what build_waveform returns plays the atom's piece on the
+   closed interval and is an atomic, non-reversed waveform over a duplicate-free non-empty channel list *)
+Theorem C01_atoms : forall a s cm ow,
   atom_guard a s cm = true -> build_waveform a s cm = Ok ow ->
-  exists op, denote_atom a (lookup s) cm = Ok op /\ omatch ow op.
-Proof. intros a H. exact (atom_sem_simple a H). Qed.
+  exists op, denote_atom a (lookup s) cm = Ok op /\ omatch2 ow op.
+Proof. exact atom_sem2_all. Qed.
 Print Assumptions C01_atoms.
 
 (* ---- refuted on the unchanged code: three table entries at the final time, played reversed ---- *)
@@ -209,16 +196,15 @@ Theorem C01_sampling_loops : forall C prog w, lgood C prog -> to_waveform prog =
 Proof. exact sampling_sound. Qed.
 Print Assumptions C01_sampling_loops.
 
-(* the programs built by create_program (atoms ConstantPT / TablePT / PointPT, any composite nodes incl. nested
-   transformations and parallel channels): `_partial` because to_waveform's success and the common channel set of the
-   leaves are hypotheses (the model accepts sequences of templates with different channels, which qupulse rejects at
-   construction) *)
+(* the programs built by create_program (every atom and node kind, incl. nested transformations and parallel channels):
+   `_partial` because to_waveform's success and the common channel set of the leaves are hypotheses (the model accepts
+   sequences of templates with different channels, which qupulse rejects at construction) *)
 Theorem C01_sampling_partial : forall p env cm prog w C,
-  simple_atoms p = true -> guard_C01_tables p (SDict env) (cm_of cm) = true ->
+  guard_C01_tables p (SDict env) (cm_of cm) = true ->
   create_program p env cm None = Ok (Some prog) -> to_waveform prog = Ok w ->
   Forall (fun x => chans_same (wchans x) C) (flatten prog) ->
   forall c t, cmem c C = true -> 0 <= t -> t < loop_dur prog -> oeq (sampled prog c t) (play prog c t).
-Proof. exact sampling_create_program. Qed.
+Proof. exact sampling_create_program_all. Qed.
 Print Assumptions C01_sampling_partial.
 
 (* why C01_sampling_statement needs a well-formedness hypothesis in this model: a sequence of two templates over
